@@ -53,7 +53,7 @@ class C12(runner.Check):
     level = "model_checking"
     variant = "san"
     watchdog_s = 60.0
-    budget_s = {"thorough": 2400}      # shards not started within the budget are reported as a cap
+    budget_s = {"thorough": 1500}      # shards not started within the budget are reported as a cap
     rule = ("ASan+UBSan build of /repo. (a) histories: for every valid layout of the value universe x encodings, every ordered "
             "pair of operations from the union alphabet sharing that input (quick: a fixed partner per operation) is run; the "
             "input's bytes are compared before/after (purity); then the input is released, the heap is churned and poisoned "
@@ -98,7 +98,7 @@ class C12(runner.Check):
 
     def _hist(self, tier, ti, st, universe=None):
         types = values.TYPES_QUICK if tier == "quick" else values.TYPES_THOROUGH
-        N, M, cap = (2, 2, 12) if tier == "quick" else (3, 2, 40)
+        N, M, cap = (2, 2, 12) if tier == "quick" else (3, 2, 18)
         patterns = (0x00, 0xFF) if tier == "quick" else (0x00, 0xFF, 0xA5)
         no = 0
         nvals = 0
@@ -215,7 +215,7 @@ class C12(runner.Check):
             else:
                 types = values.TYPES_QUICK if tier == "quick" else values.TYPES_THOROUGH
                 T = types[x]
-                N, M, cap = (2, 2, 12) if tier == "quick" else (3, 2, 40)
+                N, M, cap = (2, 2, 12) if tier == "quick" else (3, 2, 18)
                 nvals = 0
                 for tvs in values.arrays(T, N, M, 5):
                     nvals += 1
